@@ -19,9 +19,10 @@ from lib import mir
 
 PURE = ("::len", "::is_empty", "::as_ref", "::deref", "::as_slice", "::borrow", "Allocator::atom", "Allocator::atom_len",
         "Allocator::node", "Allocator::sexp", "Allocator::small_number", "NodePtr::index", "NodePtr::object_type",
-        "allocator::len_for_value", "::limbs", "::clone", "::as_bytes", "::as_mut_slice", "::deref_mut", "::iter", "::first")
+        "allocator::len_for_value", "::limbs", "::clone", "Cursor::<T>::get_ref", "::as_bytes", "::as_mut_slice", "::deref_mut", "::iter", "::first")
 TRANSPARENT = ("::as_ref", "::deref", "::as_slice", "::borrow", "::as_mut_slice", "::deref_mut", "::as_bytes", "::as_mut")
 SCALAR = ("usize", "u64", "u32", "u16", "u8", "bool", "i32", "i64", "isize", "u128", "i128")
+UNSIGNED = ("u8", "u16", "u32", "u64", "usize", "u128", "bool")
 WIDE = {"u8": 255, "u16": 65535, "u32": (1 << 32) - 1, "bool": 1}
 
 
@@ -392,8 +393,8 @@ class Lin:
                                        or src_ty in ("u8", "u16") and dst in ("u32", "i32", "i64")
                                        or src_ty == dst):
                 r = self.lin(e[2])
-                if src_ty in WIDE and len(r[0]) == 1 and r[1] == 0 and list(r[0].values()) == [1]:
-                    self.hints[next(iter(r[0]))] = (0, WIDE[src_ty])
+                if src_ty in UNSIGNED and len(r[0]) == 1 and r[1] == 0 and list(r[0].values()) == [1]:
+                    self.hints.setdefault(next(iter(r[0])), (0, WIDE.get(src_ty)))
                 return r
             return self.atom(e)
         if k == "len":
@@ -527,6 +528,9 @@ class Prover:
             else:
                 out.append((add(l, ({}, -1)), ">=0"))
             return
+        if k == "call" and e[1].endswith("::starts_with") and len(e[2]) == 2 and truth:
+            out.append((sub(L.slice_len(e[2][0]), L.slice_len(e[2][1])), ">=0"))
+            return
         if k == "call" and e[1].endswith("::eq") and len(e[2]) == 2 and not truth:
             return
         if k == "cast":
@@ -652,6 +656,17 @@ class Prover:
             e = Lf.atoms.get(a)
             if e is None:
                 continue
+            ee = e
+            while ee[0] == "val" or (ee[0] == "cast" and ee[1] == "IntToInt"):
+                ee = ee[2]
+            if ee[0] == "call" and len(ee) > 3:
+                continue    # the result of one particular call: a value, fixed once computed
+            if ee[0] == "len":
+                inner = ee[1]
+                while inner[0] == "val":
+                    inner = inner[2]
+                if inner[0] == "call" and inner[1].endswith("Cursor::<T>::get_ref"):
+                    continue    # the slice under a Cursor<&[u8]> is never replaced by reads, seeks or set_position
             for r in roots(e):
                 ty = f.local_ty(r)
                 if r not in self.ev.multi and Eval._copy_ty(ty):
